@@ -10,8 +10,12 @@ func (c *Conversation) generateNewDHKeyPair() error {
 }
 
 func (c *Conversation) akeHasFinished() error {
+	// a refresh retires every key pair of the running session at once: their MAC keys are disclosed
+	// with the first data message of the new session
+	retiredMACKeys := c.keys.macKeysToDisclose()
 	c.keys.wipe()
 	c.keys = c.ake.keys
+	c.keys.oldMACKeys = append(c.keys.oldMACKeys, retiredMACKeys...)
 	if c.ake.hasSSID {
 		c.ssid = c.ake.ssid
 	}
